@@ -119,16 +119,16 @@ func c10(c *core.Check) {
 	c10CollapseMargin(c)
 	c10CollapseThrough(c)
 	c10Provenance(c)
-	r4 := c.Rule("R4", "sibling symmetry in block layout code: two assignments of one block that differ by a side (Top/Bottom, Left/Right) on the left and have the same shape on the right mirror every side name of that axis (a half-mirrored pair is a copy-paste slip between the two sides of a box)", 4)
+	r4 := c.Rule("R4", "sibling symmetry in block layout code: two assignments of one block that differ by a side (Top/Bottom, Left/Right) on the left and have the same shape on the right mirror every side name of that axis (a half-mirrored pair is a copy-paste slip between the two sides of a box)", 6)
 	sideSymmetryRule(c, r4, "html/layout", map[string]bool{"blocks.go": true, "percentages.go": true, "min_max.go": true, "absolute.go": true, "float.go": true, "replaced.go": true, "preferred.go": true, "tables.go": true, "flex.go": true, "pages.go": true, "backgrounds.go": true, "columns.go": true, "grid.go": true}, 6)
-	r5 := c.Rule("R5", "box-edge sums: an additive expression over margins, paddings and border widths mentions each kind of edge with the same sides (both sides of an axis for all of them, or one side for all of them): a sum with the padding of both sides and twice the same border is a copy-paste slip", 20)
+	r5 := c.Rule("R5", "box-edge sums: an additive expression over margins, paddings and border widths mentions each kind of edge with the same sides (both sides of an axis for all of them, or one side for all of them): a sum with the padding of both sides and twice the same border is a copy-paste slip", 44)
 	sideSumRule(c, r5, "html/layout", map[string]bool{"blocks.go": true, "percentages.go": true, "min_max.go": true, "absolute.go": true, "float.go": true, "replaced.go": true, "preferred.go": true, "tables.go": true, "flex.go": true, "pages.go": true, "backgrounds.go": true, "columns.go": true, "grid.go": true}, 30)
 	sideSumRule(c, r5, "html/boxes", nil, 3)
 	r10 := c.Rule("R10", "box-edge conditions: a boolean condition that tests several kinds of box edges (border, padding, margin) tests each kind on the same sides — the border and the padding that keep a margin from collapsing are those of the margin's own side (CSS 2.1 §8.3.1)", 3)
 	sideCondRule(c, r10, "html/layout", nil, 4)
-	r11 := c.Rule("R11", "two-element assignments between values named after the sides of a box (margins saved and restored, left/right, top/bottom) are not crossed", 5)
+	r11 := c.Rule("R11", "two-element assignments between values named after the sides of a box (margins saved and restored, left/right, top/bottom) are not crossed", 7)
 	sideTupleRule(c, r11, "html/layout", 8)
-	r6 := c.Rule("R6", "no call passes two same-typed arguments under each other's parameter names (swapped arguments): every pair of arguments named after the callee's parameters is aligned with them", 60)
+	r6 := c.Rule("R6", "no call passes two same-typed arguments under each other's parameter names (swapped arguments): every pair of arguments named after the callee's parameters is aligned with them", 94)
 	argNameRule(c, r6, "html/layout", map[string]bool{"blocks.go": true, "percentages.go": true, "min_max.go": true, "absolute.go": true, "float.go": true, "replaced.go": true, "preferred.go": true, "tables.go": true, "flex.go": true, "grid.go": true, "layout.go": true, "backgrounds.go": true}, 90)
 }
 
@@ -263,7 +263,7 @@ func paramSpill(al *ssa.Alloc) *ssa.Parameter {
 // ---- R2 min/max wrappers
 func c10MinMax(c *core.Check) {
 	p := c.Prog
-	r := c.Rule("R2", "the min/max wrappers: the max clamp is tested before the min clamp (so min wins), each clamp re-runs the wrapped function, and each wrapper writes only the size and the two margins of its own axis", 6)
+	r := c.Rule("R2", "the min/max wrappers: the max clamp is tested before the min clamp (so min wins), each clamp re-runs the wrapped function, and each wrapper writes only the size and the two margins of its own axis", 7)
 	for _, w := range []struct{ name, size, max, min, m1, m2 string }{
 		{"handleMinMaxWidth$1", "Width", "MaxWidth", "MinWidth", "MarginLeft", "MarginRight"},
 		{"handleMinMaxHeight$1", "Height", "MaxHeight", "MinHeight", "MarginTop", "MarginBottom"},
